@@ -125,6 +125,13 @@ pub fn run(op: &str, a: &[&str]) -> Vec<String> {
             macs::pbkdf2_with(a[0], &pw, &salt, u64p(a[3]) as u32, &mut o);
             vec![hex(&o)]
         }
+        // pbkdf2_twice <digest> <pw> <salt1> <c1> <dk1> <salt2> <c2> <dk2> : both derivations use the same Mac object
+        "pbkdf2_twice" => {
+            let (pw, s1, s2) = (expand(a[1]), expand(a[2]), expand(a[5]));
+            let (mut o1, mut o2) = (dirty(usz(a[4])), dirty(usz(a[7])));
+            macs::pbkdf2_twice_with(a[0], &pw, &s1, u64p(a[3]) as u32, &mut o1, &s2, u64p(a[6]) as u32, &mut o2);
+            vec![hex(&o1), hex(&o2)]
+        }
         // scrypt <pw> <salt> <logn> <r> <p> <dklen>
         "scrypt" => {
             let (pw, salt) = (expand(a[0]), expand(a[1]));
